@@ -50,6 +50,10 @@ type Roles struct {
 	PoolElem     map[*ssa.Global]types.Type  // pool var -> element struct type (pointee)
 	PooledTypes  map[string]bool             // type string of pointee types that are pooled
 	kindFieldSet map[*types.Var]*types.Named // every field of a schema kind struct
+	// canonical role of an unexported field, found by its type or by the exported builder that writes it
+	// (tests, required, postTransforms, coercer, defaultVal, catch, isNot, schema; tag, value for providers),
+	// so that renaming the field changes nothing
+	fieldRole map[*types.Var]string
 }
 
 func structField(n *types.Named, name string) *types.Var {
@@ -71,7 +75,7 @@ func structField(n *types.Named, name string) *types.Var {
 func (P *Prog) discoverRoles() error {
 	R := &Roles{KindByName: map[string]*types.Named{}, Process: map[string]*ssa.Function{}, Validate: map[string]*ssa.Function{},
 		Dispatch: map[*ssa.Function]string{}, PoolElem: map[*ssa.Global]types.Type{}, PooledTypes: map[string]bool{},
-		kindFieldSet: map[*types.Var]*types.Named{}}
+		kindFieldSet: map[*types.Var]*types.Named{}, fieldRole: map[*types.Var]string{}}
 	P.roles = R
 	var missing []string
 	need := func(what string, ok bool) {
@@ -225,6 +229,17 @@ func (P *Prog) discoverRoles() error {
 		if !P.isPtrTo(cal.Signature.Params().At(0).Type(), R.SchemaCtx) {
 			continue
 		}
+		// a pipeline implements the whole node protocol for the primitive kinds: it is handed the
+		// required test (a *Test) among its parameters; shared tails such as a test-loop helper are not pipelines
+		hasRequired := false
+		for i := 0; i < cal.Signature.Params().Len(); i++ {
+			if P.isPtrTo(cal.Signature.Params().At(i).Type(), R.Test) {
+				hasRequired = true
+			}
+		}
+		if !hasRequired {
+			continue
+		}
 		R.Pipelines = append(R.Pipelines, cal)
 	}
 	sort.Slice(R.Pipelines, func(i, j int) bool { return fname(R.Pipelines[i]) < fname(R.Pipelines[j]) })
@@ -280,6 +295,146 @@ func (P *Prog) discoverRoles() error {
 	sort.Slice(R.Pools, func(i, j int) bool { return R.Pools[i].Name() < R.Pools[j].Name() })
 	if len(R.Pools) < 7 {
 		return fmt.Errorf("vacuous: %d sync.Pool variables found, floor 7", len(R.Pools))
+	}
+	P.discoverFieldRoles()
+	return nil
+}
+
+// discoverFieldRoles assigns canonical role names to the unexported fields of
+// the schema kinds and providers from their types and from the exported
+// builder methods that write them.
+func (P *Prog) discoverFieldRoles() {
+	R := P.roles
+	set := func(owner *types.Named, f *types.Var, role string, byOwner map[string]*types.Var) {
+		if prev, dup := byOwner[role]; dup && prev != f {
+			byOwner[role] = nil // ambiguous: fall back to the field's own name
+			return
+		}
+		byOwner[role] = f
+	}
+	isFunc := func(t types.Type, nparams int, results ...string) bool {
+		sig, ok := t.Underlying().(*types.Signature)
+		if !ok || sig.Params().Len() != nparams || sig.Results().Len() != len(results) {
+			return false
+		}
+		for i, want := range results {
+			if !strings.HasSuffix(types.TypeString(sig.Results().At(i).Type(), nil), want) {
+				return false
+			}
+		}
+		return true
+	}
+	for _, k := range R.Kinds {
+		st := k.Underlying().(*types.Struct)
+		by := map[string]*types.Var{}
+		for i := 0; i < st.NumFields(); i++ {
+			f := st.Field(i)
+			t := f.Type()
+			switch u := t.Underlying().(type) {
+			case *types.Slice:
+				switch {
+				case sameNamed(u.Elem(), R.Test):
+					set(k, f, "tests", by)
+				case isFunc(u.Elem(), 2, "error"):
+					set(k, f, "postTransforms", by)
+				}
+			case *types.Pointer:
+				if sameNamed(u.Elem(), R.Test) {
+					set(k, f, "required", by)
+				}
+			case *types.Signature:
+				if isFunc(t, 1, "any", "error") || isFunc(t, 1, "interface{}", "error") {
+					set(k, f, "coercer", by)
+				}
+			case *types.Interface:
+				if R.ZogSchema != nil && types.Identical(u, R.ZogSchema) {
+					set(k, f, "schema", by)
+				}
+			case *types.Map:
+				if R.ZogSchema != nil && types.Identical(u.Elem().Underlying(), R.ZogSchema) {
+					set(k, f, "schema", by)
+				}
+			}
+		}
+		// fields written by the exported builders Default / Catch / Not
+		for _, fn := range P.Funcs {
+			if fn.Parent() != nil || fn.Signature.Recv() == nil || !sameNamed(namedOf(fn.Signature.Recv().Type()), k) {
+				continue
+			}
+			role := map[string]string{"Default": "defaultVal", "Catch": "catch", "Not": "isNot"}[fn.Name()]
+			if role == "" {
+				continue
+			}
+			eachInstr(fn, func(_ *ssa.BasicBlock, _ int, in ssa.Instruction) {
+				st, ok := in.(*ssa.Store)
+				if !ok {
+					return
+				}
+				base, f := fieldVar(st.Addr)
+				if f == nil || R.kindFieldSet[f.Origin()] == nil || cvi(base) != ssa.Value(fn.Params[0]) {
+					return
+				}
+				if role == "isNot" {
+					if b, isC := constBool(st.Val); !isC || !b {
+						return
+					}
+				}
+				set(k, f.Origin(), role, by)
+			})
+		}
+		for role, f := range by {
+			if f != nil {
+				R.fieldRole[f.Origin()] = role
+			}
+		}
+	}
+	for _, pn := range R.Providers {
+		st, ok := pn.Underlying().(*types.Struct)
+		if !ok {
+			continue
+		}
+		by := map[string]*types.Var{}
+		for i := 0; i < st.NumFields(); i++ {
+			f := st.Field(i)
+			switch types.TypeString(f.Type(), nil) {
+			case "*string":
+				set(pn, f, "tag", by)
+			case "reflect.Value":
+				set(pn, f, "value", by)
+			}
+		}
+		for role, f := range by {
+			if f != nil {
+				R.fieldRole[f.Origin()] = role
+			}
+		}
+	}
+}
+
+// roleName: the canonical role of a field (its own name when it has none).
+func (P *Prog) roleName(f *types.Var) string {
+	if f == nil {
+		return ""
+	}
+	if r, ok := P.roles.fieldRole[f.Origin()]; ok {
+		return r
+	}
+	return f.Name()
+}
+
+// kindField: the field of a kind that plays the given role.
+func (P *Prog) kindField(k *types.Named, role string) *types.Var {
+	if k == nil {
+		return nil
+	}
+	st, ok := k.Underlying().(*types.Struct)
+	if !ok {
+		return nil
+	}
+	for i := 0; i < st.NumFields(); i++ {
+		if P.roleName(st.Field(i)) == role {
+			return st.Field(i)
+		}
 	}
 	return nil
 }
